@@ -310,8 +310,8 @@ def gen_size_sweep(rng, thorough):
     """frame payload sizes swept value by value around the powers of two / usual buffer-pool sizes: FrameStream.Write ->
     WriteFrame over loopback TCP -> FrameStream.Read (stream mode) and WriteFrameToWriter -> ReadFrameFromReader (enc mode).
     Every size goes through the Go-side predicate; the model comparison covers every size of the windows up to 8200 and, in
-    the quick tier, every 12th size (plus both ends) of the 16 K / 32 K / 64 K windows (all of them in the thorough tier):
-    the list model costs ~10 s per MB."""
+    the quick tier, every 6th size (plus both ends) of the 16 K / 32 K / 64 K windows (all of them in the thorough tier):
+    the list model is slow on megabytes."""
     out = []
 
     def add(grp, nomodel):
@@ -324,12 +324,12 @@ def gen_size_sweep(rng, thorough):
 
     small = [w for w in SWEEP_WINDOWS if w[1] <= 8200]
     large = [w for w in SWEEP_WINDOWS if w[1] > 8200]
-    for grp in sweep_groups(small, cap=9000):    # model cost grows with frames x bytes per case: keep the cases small
+    for grp in sweep_groups(small, cap=20000):    # model cost grows with frames x bytes per case: keep the cases small
         add(grp, False)
     for grp in sweep_groups(large):
         add(grp, not thorough)
     if not thorough:
-        for grp in sweep_groups(large, thin=12, cap=200000):
+        for grp in sweep_groups(large, thin=6, cap=200000):
             add(grp, False)
     return out
 
@@ -731,6 +731,23 @@ def shrink(binary, case, key):
     return cur
 
 
+def model_eval_chunked(values, chunk=40, workers=8):
+    """vlib.model_eval in many short-lived runner processes: the extracted runner gets superlinearly slower the more
+    (large) values one process has handled (232 sweep values: 92 s in one process, 2.4 s in 8 interleaved chunks)"""
+    from concurrent.futures import ThreadPoolExecutor
+    if not values:
+        return []
+    k = max(1, (len(values) + chunk - 1) // chunk)
+    parts = [list(range(i, len(values), k)) for i in range(k)]
+    with ThreadPoolExecutor(workers) as ex:
+        rs = list(ex.map(lambda idx: vlib.model_eval("C10", [values[i] for i in idx], par=1, timeout=900), parts))
+    res = [None] * len(values)
+    for idx, r in zip(parts, rs):
+        for i, ok in zip(idx, r):
+            res[i] = ok
+    return res
+
+
 def load_corpus():
     d = os.path.join(vlib.VERIF, "corpus", "C10")
     out = []
@@ -830,7 +847,8 @@ def run(ctx, only_cases=None):
             owner.append(i)
     mism = []
     try:
-        res = vlib.model_eval("C10", values, timeout=1500)
+        vlib.build_runner("C10")
+        res = model_eval_chunked(values)
         mism = sorted({owner[k] for k, ok in enumerate(res) if not ok})
         # cross-check of the extraction: the same (small) cases inside Coq with vm_compute
         small_idx = [k for k, v in enumerate(values) if len(vlib.venc(v)) < 1500]
